@@ -79,9 +79,9 @@ func init() {
 		Store: storeWorker,
 		Parts: func(tier string, seed uint64) []part {
 			if tier == "quick" {
-				return []part{{Name: "store", Count: int(envInt("VERIF_C04_RECORDS", 4800))}, {Name: "short", Count: int(envInt("VERIF_C04_SHORT", 192))}, {Name: "history", Count: 4}}
+				return []part{{Name: "store", Count: int(envInt("VERIF_C04_RECORDS", 4800))}, {Name: "short", Count: int(envInt("VERIF_C04_SHORT", 192))}, {Name: "history", Count: 4}, {Name: "scale", Count: props.ScaleJobs()}}
 			}
-			return []part{{Name: "store", Count: int(envInt("VERIF_C04_RECORDS", 12000))}, {Name: "short", Count: int(envInt("VERIF_C04_SHORT", 200))}, {Name: "history", Count: 8}}
+			return []part{{Name: "store", Count: int(envInt("VERIF_C04_RECORDS", 12000))}, {Name: "short", Count: int(envInt("VERIF_C04_SHORT", 200))}, {Name: "history", Count: 8}, {Name: "scale", Count: props.ScaleJobs()}}
 		},
 		Rule: "evaluations = decodes. For every generated valid record (type x configuration from the world's families, canonical encoding) the store applies EVERY single fault of each class - truncation at every byte, every single-bit flip, every byte forced to 00/7F/80/FF, maximal varint and zero block inserted at / written over every offset, 1-4 byte blocks dropped and duplicated at every offset, prefix-of-A + suffix-of-B splices - and hands each damaged record to every reader (Unmarshal into the writer's type, into version siblings and unrelated types, Descriptor-driven JSON) under three presentations (exact capacity, spare capacity holding the previous record, spare capacity holding FF); plus unrelated short blocks (all strings of length <= 1, every 7th (quick) or every (thorough) 2-byte string, 3-4 bytes over a boundary alphabet) per reader type. distinct_nontrivial = distinct (damaged input, reader, mode) triples, each of which differs from the undamaged record by construction. Complete over the single-fault classes for the records generated; the records themselves are sampled",
 		Assumptions: []string{
